@@ -310,8 +310,8 @@ pub fn scope(name: &str) -> Scope {
         // branches (composite leaves reach shapes that would need 7-9 kernel nodes)
         "ALT" => Scope::new(
             "ALT",
-            &["a", "b", "(?:a|b?)", "(?:a?|b)", "(?:ab|a?)", "(?:a|ab)", "(?:a|)", "(?:|a)", "(?:^|a)", "(?:a|$)", "(a)", "(a|b?)", "(?:ab)", "(?:^a?)", "(?:a?$)", "(?:^$)"],
-            &Q_KERNEL,
+            &["a", "b", "(?:a|b?)", "(?:a?|b)", "(?:ab|a?)", "(?:a|ab)", "(?:a|)", "(?:|a)", "(?:^|a)", "(?:a|$)", "(a)", "(a|b?)", "(?:ab)", "(?:^a?)", "(?:a?$)", "(?:^$)", "(?:ab|a|bb)"],
+            &["*", "+", "?", "*?", "+?", "??", "{2}", "{1,2}", "{2,}?", "{0,2}", "{2,3}"],
             false,
             &['a', 'b'],
         ),
@@ -328,7 +328,7 @@ pub fn scope(name: &str) -> Scope {
         // repetition or in a later alternative (composite leaves)
         "BR" => Scope::new(
             "BR",
-            &["a", "b", "\\1", "(a)", "(a?)", "(a*)", "(a|b)", "(?:(a?)b)", "(?:b|(a))", "(?:(a)|b)"],
+            &["a", "b", "\\1", "(a)", "(a?)", "(a*)", "(a|b)", "(?:(a?)b)", "(?:b|(a))", "(?:(a)|b)", "(a|ab|b)"],
             &["*", "+", "?", "*?", "??", "{2}"],
             false,
             &['a', 'b'],
@@ -337,6 +337,11 @@ pub fn scope(name: &str) -> Scope {
         "NESTX" => scope("NEST").wrapped("NESTX", "(?:c*)", "", &['a', 'b', 'c']),
         // fixed-length multi-character bodies under counted quantifiers
         "FX" => Scope::new("FX", &["a", "b", "(?:ab)", "(?:ba)"], &["{2}", "{1,2}", "{2,3}", "{2,}", "{2,}?", "*", "+"], false, &['a', 'b']),
+        // the same behind a start anchor (positional preconditions after `^`)
+        "FXA" => scope("FX").wrapped("FXA", "^", "", &['a', 'b']),
+        // capturing groups inside alternations that are tried, abandoned and replaced
+        // by a later branch (no quantifiers: every capture question is about rollback)
+        "ALTC" => Scope::new("ALTC", &["a", "b", "(a)", "(?:ab)", "(ab)", "(a|ab)"], &[], true, &['a', 'b']),
         // literal prefixes that overlap themselves (prefix-scan shortcut), longer inputs
         "LP" => Scope::new("LP", &["a", "b", "aa", "ab", "aab", "aba", "abab"], &["*", "?", "+"], false, &['a', 'b']),
         // group nesting: capturing groups around / beside possibly-empty terms
